@@ -14,6 +14,8 @@ SPEC = {
     "nontrivial": lambda r, a: not r.startswith("new") or a.startswith("ok"),
     "rule": "all n^n index vectors for n<=5 (quick) / n<=6 (thorough) through Permutation::new, and for every accepted one "
             "inverse/apply_vec_into/apply_inverse_vec_into/apply_vec_in_place/matrix/matrix.dot/transform on a random integer payload; "
+            "every operation again on the objects obtained by 1, 2 and 3 calls of inverse() (object histories: an inverse of an inverse must be the original, also through apply/matrix/transform); "
+            "transform on column-major and transposed-memory-order matrices, apply_vec_into / apply_inverse_vec_into on strided, reversed and column views (answers must not depend on the memory layout); "
             "plus random index vectors up to length 64 with injected out-of-range and repeated elements. "
             "Non-trivial = operation on an accepted permutation, or an accepted `new`; distinct = distinct request line.",
     "exhaustive": False,
